@@ -97,6 +97,26 @@ Definition reg_names : list string :=      (* string keys of REGISTERS *)
 Definition reg_env : envt :=
   flat_map (fun kv => match fst kv with KStr s => [(s, snd kv)] | KInt _ => [] end) REGISTERS.
 
+(* ---- the common shape of the three passes that change sizes -------------------------------------------- *)
+(* for every non-label item: replacement items [rs] chosen by [rule] (which may read position and labels);
+   position advances by the NEW total size; labels located after the item move down by old - new *)
+Definition rule_t := line -> item -> Z -> envt -> outcome (list item).
+Fixpoint sizes (l : list item) : outcome Z :=
+  match l with [] => Done 0 | it :: r => a <= size_o it ;;; b <= sizes r ;;; Done (a + b) end.
+Fixpoint gpass (rule : rule_t) (its : list litem) (pos : Z) (labels : envt) (acc : list litem)
+  : outcome (list litem * envt) :=
+  match its with
+  | [] => Done (rev acc, labels)
+  | (l, ILabel n) :: r => gpass rule r pos labels ((l, ILabel n) :: acc)
+  | (l, it) :: r =>
+      old <= size_o it ;;;
+      rs <= rule l it pos labels ;;;
+      new <= sizes rs ;;;
+      let d := old - new in
+      gpass rule r (pos + new) (if d >? 0 then shrink_after pos d labels else labels)
+            (rev_append (map (fun x => (l, x)) rs) acc)
+  end.
+
 (* ---- resolve_constants -------------------------------------------------------------------------------- *)
 Fixpoint resolve_constants_lr (its : list litem) (consts : envt) (acc : list litem) : outcome (list litem * envt) :=
   match its with
@@ -226,24 +246,24 @@ Definition imm_unstable (l : line) (pos : Z) (consts : envt) (fs : list (string 
   | None => Done false
   end.
 
-Fixpoint transform_compressible (its : list litem) (pos : Z) (consts labels : envt) (acc : list litem)
-  : outcome (list litem * envt) :=
-  match its with
-  | [] => Done (rev acc, labels)
-  | (l, IInstr cls name fs c) :: r =>
+Definition compress_rule (consts : envt) : rule_t := fun l it pos labels =>
+  match it with
+  | IInstr cls name fs c =>
       u <= imm_unstable l pos consts fs ;;;
-      if u then transform_compressible r (pos + (if c then 2 else 4)) consts labels ((l, IInstr cls name fs c) :: acc) else
+      if u then Done [it] else
       match select_rule criteria (view_of l pos consts labels name fs) with
       | Err e => Fail (perr_of_pred l e)
       | Ok (Some rule) =>
           match build_compressed rule fs with
-          | Some it' => transform_compressible r (pos + 2) consts (shrink_after pos 2 labels) ((l, it') :: acc)
+          | Some it' => Done [it']
           | None => Unsupported
           end
-      | Ok None => transform_compressible r (pos + (if c then 2 else 4)) consts labels ((l, IInstr cls name fs c) :: acc)
+      | Ok None => Done [it]
       end
-  | (l, it) :: r => n <= size_o it ;;; transform_compressible r (pos + n) consts labels ((l, it) :: acc)
+  | _ => Done [it]
   end.
+Definition transform_compressible (its : list litem) (consts labels : envt) : outcome (list litem * envt) :=
+  gpass (compress_rule consts) its 0 labels [].
 
 (* ---- transform_pseudo_instructions -------------------------------------------------------------------- *)
 Definition zero_e : expr := EArith (ANum 0).
@@ -339,14 +359,12 @@ Definition expand_pseudo (l : line) (name : string) (args : list string) (pimm :
   else if s "fence"%string then Done (One (mkFence 15 15))
   else Fail (PAsm l).
 
-Fixpoint transform_pseudo (its : list litem) (pos : Z) (consts labels : envt) (acc : list litem)
-  : outcome (list litem * envt) :=
-  match its with
-  | [] => Done (rev acc, labels)
-  | (l, IPseudo name args pimm) :: r =>
+Definition pseudo_rule (consts : envt) : rule_t := fun l it pos labels =>
+  match it with
+  | IPseudo name args pimm =>
       px <= expand_pseudo l name args pimm ;;;
       match px with
-      | One it => transform_pseudo r (pos + 4) consts labels ((l, it) :: acc)
+      | One it' => Done [it']
       | Choice e lo hi near far1 far2 =>
           v <= of_pres (eeval relocate_hi relocate_lo l (Some pos)
                               (fun k => match chain_get consts labels k with Some _ => true | None => false end)
@@ -356,28 +374,26 @@ Fixpoint transform_pseudo (its : list litem) (pos : Z) (consts labels : envt) (a
                      then match eval_consts l pos consts e with
                           | POk _ => Done true | PErr (PAsm _) => Done false | PErr e' => Fail e' end
                      else Done true) ;;;
-          if stable && (v >=? lo) && (v <=? hi)
-          then transform_pseudo r (pos + 4) consts (shrink_after pos 4 labels) ((l, near) :: acc)
-          else transform_pseudo r (pos + 8) consts labels ((l, far2) :: (l, far1) :: acc)
+          if stable && (v >=? lo) && (v <=? hi) then Done [near] else Done [far1; far2]
       end
-  | (l, it) :: r => n <= size_o it ;;; transform_pseudo r (pos + n) consts labels ((l, it) :: acc)
+  | _ => Done [it]
   end.
+Definition transform_pseudo (its : list litem) (consts labels : envt) : outcome (list litem * envt) :=
+  gpass (pseudo_rule consts) its 0 labels [].
 
 (* ---- resolve_aligns ----------------------------------------------------------------------------------- *)
-Fixpoint resolve_aligns (its : list litem) (pos : Z) (labels : envt) (acc : list litem) : outcome (list litem * envt) :=
-  match its with
-  | [] => Done (rev acc, labels)
-  | (l, IAlign n) :: r =>
+Definition align_rule : rule_t := fun l it pos labels =>
+  match it with
+  | IAlign n =>
       if n =? 0 then Fail (PRaw OtherExn)        (* ZeroDivisionError *)
       else
         let padding0 := n - (pos mod n) in
         let padding := if padding0 =? n then 0 else padding0 in
-        let shrink := n - padding in
-        let labels' := shrink_after pos shrink labels in
-        if padding =? 0 then resolve_aligns r pos labels' acc
-        else resolve_aligns r (pos + padding) labels' ((l, IZeros padding) :: acc)
-  | (l, it) :: r => n <= size_o it ;;; resolve_aligns r (pos + n) labels ((l, it) :: acc)
+        if padding =? 0 then Done [] else Done [IZeros padding]
+  | _ => Done [it]
   end.
+Definition resolve_aligns (its : list litem) (labels : envt) : outcome (list litem * envt) :=
+  gpass align_rule its 0 labels [].
 
 (* ---- resolve_immediates ------------------------------------------------------------------------------- *)
 Definition eval_here (l : line) (pos : Z) (consts labels : envt) (e : expr) : outcome Z :=
@@ -540,14 +556,14 @@ Definition assemble_items (its : list litem) (consts0 labels0 : envt) (compress 
   let '(its, consts) := p in
   labels <= resolve_labels its 0 labels0 ;;;
   let its := resolve_register_aliases its consts in
-  p <= (if compress then transform_compressible its 0 consts labels [] else Done (its, labels)) ;;;
+  p <= (if compress then transform_compressible its consts labels else Done (its, labels)) ;;;
   let '(its, labels) := p in
-  p <= transform_pseudo its 0 consts labels [] ;;;
+  p <= transform_pseudo its consts labels ;;;
   let '(its, labels) := p in
   let its := resolve_register_aliases its consts in
-  p <= (if compress then transform_compressible its 0 consts labels [] else Done (its, labels)) ;;;
+  p <= (if compress then transform_compressible its consts labels else Done (its, labels)) ;;;
   let '(its, labels) := p in
-  p <= resolve_aligns its 0 labels [] ;;;
+  p <= resolve_aligns its labels ;;;
   let '(its, labels) := p in
   its <= resolve_immediates its 0 consts labels [] ;;;
   its <= resolve_instructions its [] ;;;
